@@ -1,7 +1,10 @@
 """C14 — debug_pretty_print (partial: structural necessary conditions only).
 
-NOT decided: that the emitted text is exactly the documented layout for every tree and every payload line structure (a functional property of IndentWriter's line
-state machine over unbounded inputs), nor panic-freedom of its index arithmetic.  Decided (each a condition whose breach changes the output):
+Decided structurally (each a condition whose breach changes the output) - clauses (1)-(5) - and, when every construct of the indent writer is modelled, the writer
+itself as a transducer - clause (6): for every step (open an item, close an item, write one line fragment) and every abstract pre-state of the invariant (indent stack of
+any depth = one summarised run + explicit top; arbitrary input string = text / line break / rest) the emitted text and the post-state equal the reference transducer,
+and no step panics.  With (1)-(3), C09 and the written induction this gives the documented layout.  Clause (6) gives no verdict (NOTE line, recorded in the evidence) on a
+tree whose writer uses a construct the analysis does not model; it never turns such a tree into a violation.
   (1) confinement: both fmt impls obtain node ids only from self.id and from the ids returned by prepare_next_node_printing, which returns only payloads of Start edges of the
       one Traverse constructed from *self.id (origin rules) - with C09 this gives exactly the subtree, in pre-order
   (2) pairing: in prepare_next_node_printing open_item is called at exactly one site, on the Start arm, and the id returned is that Start's payload; close_item at exactly one
@@ -125,6 +128,35 @@ def main(tier):
         lits = [rules.origin(prog, cpi, t["args"][1]) for _, t in prog.calls(cpi) if rules.callee_name(t["callee"]).endswith("Formatter::<'a>::write_str")]
         consts = sorted({o[1] for org in lits for o in org if o[0] == "const" and isinstance(o[1], str)})
         run.ob("tables", "complete_partial_indent pads pending levels with the blank guide: %s" % consts, consts == ["    "], key="tables|pending-level padding literal is %s" % consts, detail=consts, nontrivial="pad")
+    # (6) the indent writer as a transducer: every step from every abstract pre-state of the invariant compared with the reference transducer (vlib/absint/ppstep.py)
+    profiles = ["dev"] if tier == "quick" else ["dev", "rel"]
+    sdata = e2props.load(run, profiles, ["ppstep"])
+    for (prof, entry), recs in sorted(sdata.items()):
+        und = [r for r in recs if r.get("exit") == "undecided"]
+        bad = [r for r in recs if r.get("ok") is False]
+        pan = [r for r in recs if r.get("exit") == "panic"]
+        okc = len([r for r in recs if r.get("ok") is True])
+        setup = next((r for r in recs if r.get("step") == "setup" and r.get("exit") == "return"), None)
+        for r in bad:
+            why = re.sub(r"\b([gtrsi])\d+\b", r"\1_", (r.get("why") or ["differs from the reference transducer"])[0])
+            why = re.sub(r"\(entries .*\)$", "", why).strip()
+            run.ob("steps", "%s/%s from (%s, %s): equals the reference transducer" % (r["step"], prof, r.get("line"), r.get("stack")), False,
+                   key="steps|%s|%s" % (r["step"], why[:160]), detail=r, nontrivial=("step", r["step"], r.get("line"), r.get("stack"), r.get("fragment")))
+        for r in pan:
+            run.ob("steps", "%s/%s from (%s, %s): does not panic" % (r["step"], prof, r.get("line"), r.get("stack")), False,
+                   key="steps|%s|may panic: %s" % (r["step"], e2props.panic_kind(r.get("msg"))), detail=r)
+        if setup and setup["found"].get("other_write_items"):
+            und = und + [{"msg": "the writer overrides %s, which this analysis does not follow" % setup["found"]["other_write_items"]}]
+        if und:
+            # an unmodelled construct: this clause gives no verdict on this tree (the structural clauses above still apply); recorded, never assumed fine
+            run.extra.setdefault("undecided_clauses", []).append({"clause": "steps", "profile": prof, "reasons": sorted({(u.get("msg") or "")[:200] for u in und})})
+            print("NOTE: C14 clause (6) (indent writer step table, %s) is undecided on this tree: %s" % (prof, sorted({(u.get("msg") or "")[:120] for u in und})[:2]))
+            continue
+        for r in recs:
+            if r.get("ok") is True:
+                run.ob("steps", "%s/%s from (%s, %s%s): equals the reference transducer" % (r["step"], prof, r.get("line"), r.get("stack"), (", " + r["fragment"]) if r.get("fragment") else ""), True,
+                       nontrivial=("step", r["step"], r.get("line"), r.get("stack"), r.get("fragment"), r.get("arg"), r.get("emitted")), sample=(r.get("fragment") == "line" and "mapseg" in (r.get("emitted") or "")))
+        run.floor("indent-writer step cases (%s)" % prof, okc, 30)
     # (5) format modes, per body: every payload write picks its format by f.alternate(); the template on each arm is the same at every site; the trait matches the impl
     arm_tpl = {}
     for key in (FMT_D, FMT_G):
